@@ -10,6 +10,7 @@ import Proofs.Metadata
 import Proofs.Parsers
 import Proofs.NetworkMeta
 import Proofs.NetworkMultiMeta
+import Proofs.MetaHistory
 import Props.C01
 namespace C08
 open Esdt
@@ -270,5 +271,19 @@ example : (match ((multiRun C01.nvEnv [.user C01.nvMXfer, .deliver 0] C01.nvMW0)
       (fun A => decToken (A.read C01.nvBob C01.nvKey)) with
     | some (some t) => t.md == some { nonce := 1, name := [110], creator := C01.nvAlice, hash := [104] } && t.value == some 3
     | _ => false) = true := by decide +kernel
+
+/-- FULL ("no other function rewrites metadata", the supply operations): along ANY sequence of local mints, local burns,
+    burns, NFT creates, add-quantities, NFT burns, wipes, freezes and unfreezes by anyone with any arguments (failed ones
+    rolled back), every entry stored under an NFT's key `k` keeps the metadata it had — under the hypothesis `MStepOK`
+    that token identifiers do not alias (`k` is not the fungible key of a token a fungible operation names) and that a
+    create does not issue the nonce of `k` again (C07).  With `metadata_intact_history` / `multi_metadata_intact_history`
+    (the three transfer functions) the only functions that change an NFT's metadata are ESDTNFTAddURI and
+    ESDTNFTUpdateAttributes (`addURI_exact`, `updateAttributes_exact`); the remaining ten functions write no token key of a
+    user account at all (C02.role_pause_handover_leave_balances, account_functions_touch_no_token,
+    saveKeyValue_touches_no_token). -/
+theorem supply_operations_keep_metadata (m0 : MetaData) (k : Bytes) (hk : TokKey k) (steps : List SStep) (A : Accts)
+    (hI : SInv A) (hok : SStepsOK steps A) (hms : ∀ s ∈ steps, MStepOK k s) (hM : AllMd m0 k A) :
+    AllMd m0 k (srun steps A).1 :=
+  meta_history_run m0 k hk steps A hI hok hms hM
 
 end C08
